@@ -645,6 +645,18 @@ func (t *ValidatorTable) compare(o *iterOracle, ip *IterPath) []mismatch {
 			continue
 		}
 		exp := o.Expect(v)
+		// where the element is known to be the wildcard, naming the element is
+		// naming `*` (an error built from `raw` under `raw == "*"`)
+		have := have
+		if v["W"] {
+			have = nil
+			for _, e := range ip.Errs {
+				s := e.String()
+				s = strings.ReplaceAll(s, "="+tElem+",", `="*",`)
+				s = strings.ReplaceAll(s, "="+tElem+"}", `="*"}`)
+				have = append(have, s)
+			}
+		}
 		okErrs := sameMultiset(have, exp.Errs)
 		for _, alt := range exp.AltErrs {
 			if sameMultiset(have, alt) {
